@@ -244,7 +244,9 @@ pub fn cmd_fields(a: &Args) {
 			if (maj, min) == (0, 0) || (maj, min) > (max[0], max[1]) {
 				continue;
 			}
-			let is_bound = bounds.contains(&(maj, min));
+			// the first version of every layout class, and the last one of the class before it (a gate that is off by
+			// one in either direction is wrong exactly there)
+			let is_bound = bounds.contains(&(maj, min)) || (min < 255 && bounds.contains(&(maj, min + 1)));
 			n += 1;
 			if is_bound || (n + seed as usize) % stride.max(1) == 0 {
 				work.push((maj, min, small));
